@@ -15,3 +15,9 @@ PROPS = {
     "C12": {"units": ["streams"]},
     "C20": {"units": ["streams"]},
 }
+
+NOT_APPLICABLE = [
+    {"property_id": "C09", "reason": "about the bytes flate2/miniz_oxide emit (valid gzip member, decodability after flush): no contract within reach can express or decide DEFLATE validity; the in-reach parts (bytes reach the encoder in order, coding headers) are covered under C08/C17"},
+    {"property_id": "C18", "reason": "decided by pread/fstat semantics, unsafe FFI in platform.rs and an async closure inside futures unfold + tokio block_in_place: Verus supports neither async nor FFI, Kani has no model of those syscalls"},
+]
+NOTES = "One driver: ./check <ID> --tier quick|thorough. Exit 2 (inconclusive: lost anchor, tool error, rlimit) never occurs on the unchanged tree."
